@@ -1654,12 +1654,22 @@ fn table_configs(src: &Src, name: &str) -> Result<(String, usize, usize), String
 }
 
 
-/// R9: name constructors -> spec functions built from the format strings / literals as they stand in the source
+/// R9: name constructors -> spec functions built from the format strings / literals as they stand in the source.
+/// Pieces are emitted as character sequences (native to the solver); `lemma_names_strlits` ties them to the
+/// string literals the executable code passes to `format_ident!` / `Ident::new`.
 fn table_names(src: &Src, prefix: &str) -> Result<(String, usize, usize), String> {
+    fn chars(p: &str) -> String {
+        if p.is_empty() {
+            return "Seq::<char>::empty()".to_string();
+        }
+        let cs: Vec<String> = p.chars().map(|c| format!("'{}'", esc_char(c))).collect();
+        format!("seq![{}]", cs.join(", "))
+    }
     let mut out = String::new();
     let mut lo = usize::MAX;
     let mut hi = 0usize;
     let mut fam = Vec::new();
+    let mut lits: Vec<String> = Vec::new();
     for it in &src.file.items {
         if let syn::Item::Fn(f) = it {
             let fname = f.sig.ident.to_string();
@@ -1681,7 +1691,6 @@ fn table_names(src: &Src, prefix: &str) -> Result<(String, usize, usize), String
                     _ => None,
                 })
                 .collect();
-            // body: single expression macro format_ident!(..) or Ident::new("lit", Span::call_site())
             let tail = match f.block.stmts.as_slice() {
                 [syn::Stmt::Expr(e, None)] => e,
                 _ => return Err(format!("{}: body is not a single expression", fname)),
@@ -1695,7 +1704,6 @@ fn table_names(src: &Src, prefix: &str) -> Result<(String, usize, usize), String
                     }
                     let mut args = Vec::new();
                     for a in &fa.args {
-                        // must be `<param>.into()`
                         let t: String = a.to_token_stream_string().chars().filter(|c| !c.is_whitespace()).collect();
                         match t.strip_suffix(".into()") {
                             Some(p) if params.iter().any(|x| x == p) => args.push(p.to_string()),
@@ -1716,23 +1724,41 @@ fn table_names(src: &Src, prefix: &str) -> Result<(String, usize, usize), String
                 }
                 _ => return Err(format!("{}: unexpected body", fname)),
             };
+            for p in &pieces {
+                if !lits.contains(p) {
+                    lits.push(p.clone());
+                }
+            }
             let sig: Vec<String> = params.iter().map(|p| format!("{}: usize", p)).collect();
-            let mut body = format!("\"{}\"@", esc_str(&pieces[0]));
+            let mut body = chars(&pieces[0]);
             for (i, a) in args.iter().enumerate() {
-                body.push_str(&format!(" + dec({} as nat) + \"{}\"@", a, esc_str(&pieces[i + 1])));
+                body.push_str(&format!(" + dec({} as nat) + {}", a, chars(&pieces[i + 1])));
             }
             out.push_str(&format!("pub open spec fn {}_spec({}) -> Seq<char> {{ {} }}\n", fname, sig.join(", "), body));
-            let ps: Vec<String> = pieces.iter().map(|p| format!("\"{}\"@", esc_str(p))).collect();
-            fam.push(format!("    NameFamily {{ pieces: seq![{}] }}, // {}\n", ps.join(", "), fname));
+            let ps: Vec<String> = pieces.iter().map(|p| chars(p)).collect();
+            fam.push(format!("    NameFamily {{ pieces: seq![{}] }}, // {}: {}\n", ps.join(", "), fam.len(), fname));
         }
     }
     if fam.is_empty() {
         return Err("no construct_* functions found".into());
     }
     out.push_str(&format!(
-        "/// every name family of name_constructors.rs: the literal pieces between the `{{}}` holes\npub open spec fn {}_families() -> Seq<NameFamily> {{\n  seq![\n{}  ]\n}}\n",
+        "/// every name family of name_constructors.rs: the literal pieces between the `{{}}` holes, in source order\npub open spec fn {}_families() -> Seq<NameFamily> {{\n  seq![\n{}  ]\n}}\n",
         prefix,
         fam.join("")
+    ));
+    // strlit bridge
+    let mut reveals = String::new();
+    let mut ens = Vec::new();
+    for l in &lits {
+        reveals.push_str(&format!("    reveal_strlit(\"{}\");\n", esc_str(l)));
+        ens.push(format!("\"{}\"@ =~= {}", esc_str(l), chars(l)));
+    }
+    out.push_str(&format!(
+        "/// the string literals of name_constructors.rs, as character sequences\npub proof fn lemma_{}_strlits()\n    ensures\n        {},\n{{\n{}}}\n",
+        prefix,
+        ens.join(",\n        "),
+        reveals
     ));
     Ok((out, lo, hi))
 }
